@@ -302,6 +302,24 @@ def _eval_constants(case):
 
 
 def evaluate(case):
+    """A coefficient function that raises on a point of the lattice is a violation of its own, not a harness error."""
+    try:
+        return _evaluate(case)
+    except Exception as exc:  # noqa
+        import traceback
+
+        tb = traceback.extract_tb(exc.__traceback__)
+        site = next((f"{t.filename.split('/src/')[-1]}:{t.name}" for t in reversed(tb) if "/src/" in t.filename), "?")
+        res = Result()
+        res.fail(
+            f"{case.get('fn', case['kind'])}/raises/{type(exc).__name__}",
+            f"case {case}: {type(exc).__name__}: {str(exc)[:160]} at {site}",
+        )
+        res.outcome = "raises"
+        return res
+
+
+def _evaluate(case):
     kind = case["kind"]
     if kind == "poly":
         return _eval_poly(case)
